@@ -83,8 +83,18 @@ func mk[T any](typ, desc string, v T, eq func(a, b T) bool, facts func(v T) stri
 				case !eq(d2, d):
 					r.RtNote = "decode(encode(x)) not Equal to x"
 				default:
-					re2, e3 := serde.MarshalCBOR(d2)
-					if e3 != nil || string(re2) != string(re) {
+					// the encoding must not depend on Go map iteration order: repeat a few times
+					stable := true
+					for k := 0; k < 4 && stable; k++ {
+						d3, e3 := serde.UnmarshalCBOR[T](re)
+						if e3 != nil {
+							stable = false
+							break
+						}
+						re2, e4 := serde.MarshalCBOR(d3)
+						stable = e4 == nil && string(re2) == string(re)
+					}
+					if !stable {
 						r.RtNote = "re-encoding is not byte-identical after a second round trip"
 					} else {
 						r.RtOK = true
